@@ -357,18 +357,7 @@ def check_units(ctx, fi, res):
                     need(n, p_, 'C', 'index / slice bound into a source line')
 
 
-def _sign_coded_params(fn) -> set[str]:
-    """Parameters the callee itself declares to be of either unit: it dispatches on their sign (`col <= 0`) and uses the negated value
-    (`-col`) in one arm — fst_core._offset takes a character column when positive and a byte offset when negative."""
-    out = set()
-    ps = {a.arg for a in fn.args.posonlyargs + fn.args.args + fn.args.kwonlyargs}
-    for x in ast.walk(fn):
-        if isinstance(x, ast.Compare) and len(x.ops) == 1 and isinstance(x.ops[0], (ast.Lt, ast.LtE, ast.Gt, ast.GtE)) and \
-                isinstance(x.left, ast.Name) and x.left.id in ps and isinstance(x.comparators[0], ast.Constant) and x.comparators[0].value == 0:
-            if any(isinstance(y, ast.UnaryOp) and isinstance(y.op, ast.USub) and isinstance(y.operand, ast.Name) and y.operand.id == x.left.id
-                   for y in ast.walk(fn)):
-                out.add(x.left.id)
-    return out
+from ..units import sign_coded_params as _sign_coded_params
 
 
 # ---- R6.5 ------------------------------------------------------------------------------------------------------------
